@@ -369,7 +369,7 @@ fn run_history(next: &mut dyn FnMut(usize, &Model, &mut Rng) -> Option<Sym>, rng
 
 impl C10 {
     pub fn enum_len(tier: Tier) -> usize {
-        tier.pick(4, 5)
+        tier.pick(5, 6)
     }
 }
 
@@ -378,7 +378,7 @@ impl Check for C10 {
         "C10"
     }
     fn plan(&self, tier: Tier) -> Plan {
-        let mut p = Plan::new(196 + tier.pick(30_000, 1_200_000), tier.pick(40.0, 540.0));
+        let mut p = Plan::new(196 + tier.pick(600_000, 60_000_000), tier.pick(35.0, 480.0));
         p.mandatory = 196;
         p.cpu_budget_s = 120.0;
         p
@@ -417,7 +417,7 @@ impl Check for C10 {
         run_history(&mut it, rng, out);
     }
     fn rule(&self) -> String {
-        "histories over application calls {request_connection, request_playback, request_publishing, stop_playback, stop_publishing, publish_metadata/video/audio, send_ping_request} and server messages encoded by the independent encoder {_result / _error with the current connect, the current createStream, an already answered, a never issued, 0 and 2^32-1 transaction id, with / without / with a non-numeric stream id; onStatus Play.Start, Publish.Start, unknown codes, missing/ill-typed arguments; audio/video/onMetaData on the active stream, another stream, stream 0; ping request/response, acknowledgement, stream begin, set chunk size}. Random walks of 5-80 steps (one third of the steps biased towards progress, the rest uniform: duplicates, out-of-order and stale answers), plus all sequences of length 4 (thorough 5) over a 14-symbol reduced alphabet. After every step events, decoded emitted commands/media/pings, emitted byte count and Ok/Err are compared with model::client. distinct = hash of the (model state class, symbol) sequence.".to_string()
+        "histories over application calls {request_connection, request_playback, request_publishing, stop_playback, stop_publishing, publish_metadata/video/audio, send_ping_request} and server messages encoded by the independent encoder {_result / _error with the current connect, the current createStream, an already answered, a never issued, 0 and 2^32-1 transaction id, with / without / with a non-numeric stream id; onStatus Play.Start, Publish.Start, unknown codes, missing/ill-typed arguments; audio/video/onMetaData on the active stream, another stream, stream 0; ping request/response, acknowledgement, stream begin, set chunk size}. Random walks of 5-80 steps (one third of the steps biased towards progress, the rest uniform: duplicates, out-of-order and stale answers), plus all sequences of length 5 (thorough 6) over a 14-symbol reduced alphabet. After every step events, decoded emitted commands/media/pings, emitted byte count and Ok/Err are compared with model::client. distinct = hash of the (model state class, symbol) sequence.".to_string()
     }
     fn assumptions(&self) -> Vec<String> {
         vec![
